@@ -291,6 +291,15 @@ class ExprMixin:
                 return self.call_function(ga, [o, name], {})
             if o.exc_args is not None and name == "args":
                 return o.exc_args
+            if getattr(o, "synthetic", False):
+                dv = self._default_field(o, name)
+                if dv is not UNDEF:
+                    o.fields[name] = dv
+                    return dv
+            if getattr(o, "synthetic", False) and self._class_assigns_field(o.cls, name):
+                # the object was built field-by-field by a harness: a missing field means the contract's shape is out
+                # of date with the code (UNDECIDED), not that the code raises AttributeError
+                raise Unsupported(f"shape object {o.cls.name} has no field '{name}' (contract shape out of date)")
             raise PyRaise_(AttributeError(f"'{o.cls.name}' object has no attribute '{name}'"))
         if isinstance(o, SymObj):
             if name in o.attrs:
@@ -343,6 +352,52 @@ class ExprMixin:
         if isinstance(o, (SymSeq, ListTerm)):
             return self.models.symseq_attr(self, o, name)
         return self.models.native_getattr(self, o, name)
+
+    def _default_field(self, o, name):
+        """A field the harness did not provide but which __init__ initialises with a closed expression
+        (`self.cache = {}`): use that initial value, so that adding such a field does not invalidate the shape."""
+        for k in o.cls.mro:
+            if not isinstance(k, ClassV):
+                continue
+            init = k.attrs.get("__init__")
+            if not isinstance(init, FuncV):
+                continue
+            a = init.node.args
+            local = {p.arg for p in a.posonlyargs + a.args + a.kwonlyargs} | ({a.vararg.arg} if a.vararg else set()) | ({a.kwarg.arg} if a.kwarg else set())
+            for stn in ast.walk(init.node):
+                if isinstance(stn, ast.Assign):
+                    for t in stn.targets:
+                        if isinstance(t, ast.Name):
+                            local.add(t.id)
+            for stn in init.node.body:
+                if isinstance(stn, ast.Assign) and len(stn.targets) == 1:
+                    t = stn.targets[0]
+                    if isinstance(t, ast.Attribute) and isinstance(t.value, ast.Name) and t.value.id == "self" and t.attr == name:
+                        if any(isinstance(n, ast.Name) and n.id in local for n in ast.walk(stn.value)):
+                            return UNDEF
+                        try:
+                            return self.eval(stn.value, self.module_env(k.module))
+                        except Exception:
+                            return UNDEF
+        return UNDEF
+
+    _field_cache = {}
+
+    def _class_assigns_field(self, cls, name):
+        """Does the source of the class (or a base) contain `self.<name> = ...`?"""
+        for k in cls.mro:
+            if not isinstance(k, ClassV):
+                continue
+            key = id(k.node)
+            if key not in self._field_cache:
+                names = set()
+                for n in ast.walk(k.node):
+                    if isinstance(n, ast.Attribute) and isinstance(n.ctx, ast.Store) and isinstance(n.value, ast.Name) and n.value.id == "self":
+                        names.add(n.attr)
+                self._field_cache[key] = names
+            if name in self._field_cache[key]:
+                return True
+        return False
 
     def setattr(self, o, name, v, env=None):
         if isinstance(o, Obj):
@@ -454,6 +509,8 @@ class ExprMixin:
         raise Unsupported("del item")
 
     def dict_find(self, d, k):
+        if not _simple(k):
+            self.models._hashcheck(self, k)  # Python hashes the key first: unhashable keys raise TypeError
         if _simple(k) and all(_simple(x) for x in d.keys()):
             if k in d:
                 return True, dict.__getitem__(d, k)
@@ -707,6 +764,7 @@ class ExprMixin:
         if isinstance(container, dict):
             if _simple(x) and all(_simple(k) for k in container):
                 return x in container
+            self.models._hashcheck(self, x)
             ts = [self.eq_term(k, x) for k in container]
             return self._or(ts)
         if isinstance(container, (list, tuple, set, frozenset)):
